@@ -64,7 +64,16 @@ EOF
 # ---------------------------------------------------------------------------------------
 cat > "$WORK/known_crash" <<EOF
 servers=1|oncb 1 cancel;send 1 a.example IN A rd;rsp x0 an=A:1.1.1.1;proc
+servers=1|oncb 5 cancel;gai 5 h5.example 0 0;rspall rcode=3;proc
+servers=1|search 0 h0 IN A rd;search 2 h2 IN A rd;oncb 0 cancel
+servers=1|send 3 h3.example IN A rd;oncb 3 gai,5,n2.example,0,0
+servers=1|send 0 h0.example IN A rd;oncb 0 setservers,10.0.0.9;rspall rcode=3;run
+servers=1 domains=d.test ndots=5|search 1 aaaaaaaaaaaaaaaaaaaaaaaaaaaaaaaaaaaaaaaaaaaaaaaaaaaaaaaaaaaaaaa.aaaaaaaaaaaaaaaaaaaaaaaaaaaaaaaaaaaaaaaaaaaaaaaaaaaaaaaaaaaaaaa.aaaaaaaaaaaaaaaaaaaaaaaaaaaaaaaaaaaaaaaaaaaaaaaaaaaaaaaaaaaaaaa.\\097aaaaaaaaaaaaaaaaaaaaaaaaaaaaaaaaaaaaaaaaaaaaaaaaaaaaaa IN A rd
+servers=1 tries=80 timeout=1 maxtimeout=5|send 1 a.example IN A rd;REPEAT80
 EOF
+# expand the REPEAT80 shorthand (80 x "adv 10;proct")
+rep=$(i=0; while [ $i -lt 80 ]; do printf 'adv 10;proct;'; i=$((i+1)); done)
+sed -i "s/REPEAT80/$rep/" "$WORK/known_crash"
 
 run() { "$BIN" "$1" 0 > "$2" 2> "$3"; echo $?; }
 
@@ -122,7 +131,7 @@ while read -r line; do
   printf '%s\n' "$line" > "$WORK/one"
   rc=$(run "$WORK/one" "$WORK/o" "$WORK/e")
   echo "known_crash[$k] exit=$rc : $line"
-  [ $QUIET = 1 ] || cat "$WORK/o"
+  [ $QUIET = 1 ] || tail -8 "$WORK/o" | cut -c1-200
   grep -E "^(==[0-9]+==ERROR|SUMMARY|.*runtime error)" "$WORK/e" | head -3
   k=$((k+1))
 done < "$WORK/known_crash"
